@@ -7,7 +7,6 @@ NA = {
  'C03': 'bootstrap / manifest replay / rewrite are async tokio file I/O + serde_json + moka: not executable by Kani/CBMC, not loop-free scalar code for the MIR interpreter, nothing rule-like to translate',
  'C04': 'same code as C03 plus crash points inside file writes/rename; process death and torn writes are outside what the installed solver-based engines model',
  'C05': 'needs both storage engines end to end (async iterators, moka, files); the planner-visible part (engine-specific Config flags must not change answers) is decided under C01/C12/C13',
- 'C07': 'only SecondaryRowHandler packing (decided under C19) and DeleteVector::apply_to are units; apply_to exhausts memory under Kani even with one symbolic id and a 2-bit map, and everything the property is about (delete/compaction/reopen histories) is the async storage path',
  'C08': 'schedules over pin/commit/vacuum: no concurrency in Kani, and VersionManager does not compile under Kani 0.68 (internal compiler error)',
  'C09': 'schedules over compactor passes and tokio mutexes; no installed solver-based engine encodes them from the real code',
  'C10': 'multi-session, multi-threaded schedules; same reason as C09',
@@ -38,7 +37,7 @@ def main():
         },
         'engines': [
             {'name': 'R', 'path': 'relsmt', 'serves_properties': ['C01', 'C02', 'C12', 'C13'], 'kind_free_text': 'python+z3: rewrite rules applied by the real egg rules / plans from the real binder+optimizer encoded over K-row symbolic tables with 3VL; counterexamples replayed through the real executor'},
-            {'name': 'M', 'path': 'mirsmt', 'serves_properties': ['C02', 'C06', 'C11', 'C13', 'C14', 'C16', 'C19', 'C20'], 'kind_free_text': 'python+z3: symbolic interpretation of rustc MIR dumped from /repo on every run (kernels, evaluator arms, aggregate state machine, block seek, nullable block iterator, interval accessors; std/bitvec primitives as natives); multiply/divide-by-constant chains decided by an exact bit-vector->integer translation'},
+            {'name': 'M', 'path': 'mirsmt', 'serves_properties': ['C02', 'C06', 'C07', 'C11', 'C13', 'C14', 'C16', 'C19', 'C20'], 'kind_free_text': 'python+z3: symbolic interpretation of rustc MIR dumped from /repo on every run (kernels, evaluator arms, aggregate state machine, block seek, nullable block iterator, interval accessors; std/bitvec primitives as natives); multiply/divide-by-constant chains decided by an exact bit-vector->integer translation'},
             {'name': 'K', 'path': 'kani', 'serves_properties': ['C06', 'C19', 'C14'], 'kind_free_text': 'Kani 0.68 / CBMC proof harnesses over the compiled crate (codecs, plain blocks, DataValue laws, bit-vector primitives)'},
         ],
         'checks': [],
